@@ -275,20 +275,22 @@ Inductive loaded := LVar (k : nat) | LOther.     (* is_expr_var(loaded) or not *
 Inductive pushed := PConst (z : Z) | PSame.      (* what is pushed on the stack *)
 
 (* SEVM.calldataload after `loaded = ex.calldata().get_word(offset)`:
-   the list of successor states as (branch condition `sym == cand` if any, pushed value) *)
+   the list of successor states as (branch condition `sym == cand` if any, pushed value).
+   Which of the three outcomes applies -- the constant the path has fixed the symbol to, one
+   successor per candidate, the word itself -- is decided by gen_calldataload, regenerated from
+   the if/elif chain of SEVM.calldataload on every run (on the code as it is: the substitution
+   first, then the candidates). *)
 Definition calldataload (subst : list (nat * Z)) (cands : list (nat * list nat)) (l : loaded)
   : list (option (nat * nat) * pushed) :=
   match l with
   | LVar k =>
-      match assoc subst k with
-      | Some z => [(None, PConst z)]
-      | None =>
-          match assoc cands k with
-          | Some cs => map (fun c => (Some (k, c), PConst (Z.of_nat c))) cs
-          | None => [(None, PSame)]
-          end
-      end
-  | LOther => [(None, PSame)]
+      gen_calldataload true (assoc subst k) (assoc cands k)
+        (fun z => [(None, PConst z)])
+        (fun cs => map (fun c => (Some (k, c), PConst (Z.of_nat c))) cs)
+        [(None, PSame)]
+  | LOther =>
+      gen_calldataload false None None
+        (fun z => [(None, PConst z)]) (fun _ => [(None, PSame)]) [(None, PSame)]
   end.
 
 (* ------------------------------------------------------------------ several calldata in one path *)
